@@ -366,6 +366,24 @@ def run(facts, rep, tier, ctx):
     else:
         rep.fail("R12.1", "async_vfs", "async world present", "async_vfs module not found")
     run_error_rs(facts, rep)
+    # (c) trailing-slash joins are InvalidPath (R06.4); (e) create_dir classes on both backends (R01.2k / R01.4)
+    from . import c06, c01
+    from .. import physrules
+    from ..panics import Discharger, load_records
+    D = Discharger(facts, load_records(os.path.join(ctx["V"], "rules", "panic_records.json")))
+    from ..report import Report
+    scratch = Report("x")
+    c06.joiner_rules(facts, scratch, D)
+    for o in scratch.obligations:
+        if o["rule"] == "R06.4":
+            rep.ob("R12.3c", o["fn"], o["key"].split("|")[2], o["ok"], o["detail"], o["loc"])
+    scratch = Report("y")
+    c01.table_m(facts, scratch, "M", "Mk", ops_filter=("create_dir",))
+    for o in scratch.obligations:
+        if o["rule"] == "Mk":
+            rep.ob("R12.3e", o["fn"], o["key"].split("|")[2], o["ok"], o["detail"], o["loc"])
+    physrules.table_o_shape(facts, rep, "R12.3e", ws)
+    physrules.mkdir_not_asked(facts, rep, "R12.3e", ws, D)
     if tier == "thorough":
         run_witness(rep, ctx)
     rep.assume("backends and adapters may return placeholder / inner-namespace paths by design; only the path layer labels")
